@@ -116,7 +116,7 @@ def exec : List Sexp → String
   | [.atom "files", .list (.atom "files" :: fs), .list (.atom "threads" :: ths), .list (.atom "sched" :: sch)] => filesExec fs ths sch
   | [.atom "cache", .list [.atom "val", v], .list (.atom "threads" :: ths), .list (.atom "sched" :: sch)] => cacheExec v ths sch
   | [.atom "sched", .list (.atom "tree" :: nodes), .list (.atom "threads" :: ths), .list (.atom "sched" :: sch)] =>
-    if C12.hasStatic nodes then "bad-op" else
+    if C12.hasStatic nodes || (C12.tsTable nodes).any Option.isSome then "bad-op" else
     match C12.treeOf nodes with
     | none => "bad-op"
     | some [] => "bad-op"
